@@ -138,6 +138,7 @@ type env struct {
 	readErrs bool
 	idGen   int
 	useGen  bool
+	wfStatus bool // the worker function reads its job's status (C16)
 	ackQ    bool // in-memory queues are bound as user queues that also implement IAcknowledgeable
 	family  string
 	params  map[string]int
@@ -210,6 +211,18 @@ func (e *env) wfBody(j Job[int]) (int, error) {
 		}
 	} else {
 		e.notes = append(e.notes, fmt.Sprintf("wf invoked with unknown data %d", d))
+	}
+	// the job's own status word, read from inside the worker function (items of a batch have no
+	// handle of their own): Processing for as long as the function runs (C16)
+	if sp, ok := j.(interface{ Status() string }); ok && e.wfStatus {
+		if st := sp.Status(); st != "Processing" {
+			e.notes = append(e.notes, fmt.Sprintf("WFSTATUS: job d%d reads %s at the start of its worker function", d, st))
+		}
+		defer func() {
+			if st := sp.Status(); st != "Processing" {
+				e.notes = append(e.notes, fmt.Sprintf("WFSTATUS: job d%d reads %s at the end of its worker function", d, st))
+			}
+		}()
 	}
 	defer func() {
 		vt.Mark("wf-", j, strconv.Itoa(d))
@@ -472,6 +485,9 @@ func (e *env) addAll(q int, specs []itemSpec) *batch {
 	items := make([]Item[int], 0, len(specs))
 	for i, sp := range specs {
 		id := fmt.Sprintf("b%d-%d", b.idx, i)
+		if (b.idx+i)%5 == 4 {
+			id = " " + id + "\t" // ids are carried verbatim, surrounding white space included
+		}
 		sid := "g:" + id
 		if sp.noID {
 			id, sid = "", ""
